@@ -1,6 +1,6 @@
 // Command racepass runs the C07/C08/C12 harness bodies free-running (real
 // goroutines, no cooperative scheduler) so that the Go race detector can see
-// unsynchronised accesses. Build with -race. usage: racepass <C07|C08|C12> <iterations>
+// unsynchronised accesses. Build with -race. usage: racepass <C07|C08|C15> <iterations>
 package main
 
 import (
@@ -13,7 +13,7 @@ import (
 
 func main() {
 	if len(os.Args) < 3 {
-		fmt.Fprintln(os.Stderr, "usage: racepass <C07|C08|C12> <iterations>")
+		fmt.Fprintln(os.Stderr, "usage: racepass <C07|C08|C15> <iterations>")
 		os.Exit(2)
 	}
 	n, _ := strconv.Atoi(os.Args[2])
@@ -24,6 +24,8 @@ func main() {
 		msg, err = props.C07FreeRun(n)
 	case "C08":
 		msg, err = props.C08FreeRun(n)
+	case "C15":
+		msg, err = props.C15FreeRun(n)
 	default:
 		err = fmt.Errorf("unknown harness %s", os.Args[1])
 	}
